@@ -42,6 +42,7 @@ import (
 	"fmt"
 	"go/token"
 	"math/big"
+	"sort"
 	"strings"
 
 	"golang.org/x/tools/go/ssa"
@@ -74,6 +75,7 @@ func checkC04(ctx *Ctx, r *Report, tier string) {
 	checkParameterMerging(ctx, r)
 	checkEveryLineConverted(ctx, r)
 	checkDistanceSearchExits(ctx, r)
+	checkBuildKeepsNoSharedState(ctx, r)
 }
 
 var windingConvention = true // lower endpoint closed (set by W1 on the real function)
@@ -799,4 +801,32 @@ func checkDistanceSearchExits(ctx *Ctx, r *Report) {
 		r.check("W9", "qtNode.minDist2|search-visits-every-child-that-can-lower-the-distance", pos, bad == "", "children are skipped only by their own box-distance test;"+bad)
 	}
 	r.floor("W9", 1)
+}
+
+// checkBuildKeepsNoSharedState (W11): a polygon SDF is determined by the vertices it is built
+// from - also when two of them are built at the same time on different goroutines. The functions
+// that build one (constructor, quadtree builder, clipping helpers) therefore keep their scratch
+// data in locals: interprocedural write-effect summaries of Mesh2D, Mesh2DSlow and Polygon2D
+// show no write to a package-level variable outside an exclusive lock.
+func checkBuildKeepsNoSharedState(ctx *Ctx, r *Report) {
+	e := newFxEngine(ctx)
+	n := 0
+	for _, name := range []string{"Mesh2D", "Mesh2DSlow", "Polygon2D"} {
+		fn := ctx.ssaFunc("sdf", name)
+		if fn == nil {
+			r.undecided("W11", name, 0, "constructor not found")
+			continue
+		}
+		s := e.summarize(fn)
+		var bad []string
+		for _, w := range s.writes {
+			if w.root.kind == "global" && !w.guarded {
+				bad = append(bad, fmt.Sprintf("%s at %s [%s]", w.root, ctx.pos(w.pos), w.why))
+			}
+		}
+		sort.Strings(bad)
+		n++
+		r.check("W11", name+"|construction-writes-no-package-level-state", fn.Pos(), len(bad) == 0, "scratch data shared between two constructions corrupts both: "+strings.Join(bad, "; "))
+	}
+	r.floor("W11", 3)
 }
